@@ -263,10 +263,14 @@ def _helper(case, V, sit, cnt, keys):
         st = State()
         st.append(X=X0, Y=Y0, Z=0.0)
         for _ in range(n0 * 2 ** lev):
-            if p == 2:
-                U, Vv = func(st, sample, dt, s=s_par)
-            else:
-                U, Vv = func(st, sample, dt)
+            try:
+                if p == 2:
+                    U, Vv = func(st, sample, dt, s=s_par)
+                else:
+                    U, Vv = func(st, sample, dt)
+            except Exception as e:  # noqa: BLE001
+                V.append(C.viol(f"analytical.get_velocity{p} raised {type(e).__name__}: {e}", flow=flow, s=s_par))
+                return
             st["X"] = st.X + dt * np.asarray(U)
             st["Y"] = st.Y + dt * np.asarray(Vv)
         errs.append(float(np.max(np.hypot(st.X - Xr, st.Y - Yr))))
